@@ -877,4 +877,92 @@ def exRun : Option (St × (String → Option Bool)) := (init 10 0 ["a", "b"]).ma
 example : (exRun.map fun r => (r.1.current, r.2 "a", r.1.eps.map fun e => (e.id, e.status))) =
     some ("a", some true, [("a", .available), ("b", .available)]) := by decide
 
+/-! ## C14: the recovery window is not cut short -/
+
+/-- **C14** an endpoint that went recovering at `t0` (an available endpoint reported unavailable) can be
+    made unavailable by a timer only from `t0 + RecoveryTimeout` on: whichever timer fires — its own,
+    a stale one of an earlier window, one that was stopped too late — before that moment the endpoint
+    is still recovering afterwards -/
+theorem recovery_not_cut_short {s : St} (h : Reach s) (tid : Nat) :
+    ∀ x ∈ s.eps, x.status = .recovering → ∀ t0, x.lastChange = some t0 →
+    ∀ y ∈ (opFire s tid).1.eps, y.id = x.id → y.status = .unavailable → t0 + s.r ≤ s.now := by
+  have hs := reach_sinv h
+  have hid := (reach_inv h).toBase.idInj
+  intro x hx hrec t0 hlc y hy hyid hyun
+  -- a table that still contains x unchanged cannot show it unavailable
+  have hsame : ∀ y ∈ s.eps, y.id = x.id → y.status = .unavailable → t0 + s.r ≤ s.now := by
+    intro y hy hyid hyun
+    have : y = x := hid y hy x hx hyid
+    rw [this, hrec] at hyun; cases hyun
+  unfold opFire at hy
+  cases hfind : s.timers.find? (fun t => t.tid == tid) with
+  | none => rw [hfind] at hy; exact hsame y hy hyid hyun
+  | some t =>
+    have htm : t ∈ s.timers := List.mem_of_find?_eq_some hfind
+    rw [hfind] at hy
+    simp only at hy
+    split at hy
+    · exact hsame y hy hyid hyun
+    · rename_i hcan
+      have hdue : t.due ≤ s.now := by simpa [canFire] using hcan
+      cases hk : t.kind with
+      | switch =>
+        rw [hk] at hy
+        simp only at hy
+        have : (fireSwitch { s with timers := removeTimer s.timers tid }).eps = s.eps := by
+          unfold fireSwitch
+          repeat' split
+          all_goals rfl
+        rw [this] at hy; exact hsame y hy hyid hyun
+      | recovery obj id stamp =>
+        rw [hk] at hy
+        simp only at hy
+        unfold fireRecovery at hy
+        simp only at hy
+        have horph : (match List.find? (fun (e : Ep) => e.obj == obj) s.orphans with
+            | none => ({ s with timers := removeTimer s.timers tid } : St)
+            | some e => if (e.lastChange != stamp) = true then { s with timers := removeTimer s.timers tid }
+                        else maybeUpdateCurrent (setStateOrphan { s with timers := removeTimer s.timers tid } e .unavailable)).eps = s.eps := by
+          cases s.orphans.find? (fun e => e.obj == obj) with
+          | none => rfl
+          | some o =>
+            simp only
+            split
+            · rfl
+            · rw [(muc_fields _).1]; rfl
+        cases hfe : findEp s.eps id with
+        | none =>
+          rw [hfe] at hy
+          simp only at hy
+          have hy' : y ∈ s.eps := by rw [← horph]; exact hy
+          exact hsame y hy' hyid hyun
+        | some e =>
+          have hem := findEp_some hfe
+          rw [hfe] at hy
+          simp only at hy
+          by_cases hobj : (e.obj == obj) = true
+          · simp only [hobj, ↓reduceIte] at hy
+            split at hy
+            · exact hsame y hy hyid hyun
+            · rename_i hlc2
+              have hlc' : e.lastChange = stamp := by simpa using hlc2
+              rw [(muc_fields _).1] at hy
+              simp only [setStateEp] at hy
+              obtain ⟨x', hx', rfl⟩ := mem_updId.mp hy
+              by_cases hxe : (x'.id == e.id) = true
+              · -- the endpoint the timer belongs to: it is x, and the timer carries x's stamp
+                have hx'e : x' = e := hid x' hx' e hem.1 (by simpa using hxe)
+                have hex : e = x := hid e hem.1 x hx (by
+                  simp only [hxe, ↓reduceIte, touch] at hyid
+                  rw [← hx'e]; exact hyid)
+                have hst : stamp = some t0 := by rw [← hlc', hex]; exact hlc
+                obtain ⟨-, -, hd⟩ := hs.tmr t htm obj id stamp hk
+                have := (hd t0 hst).1
+                omega
+              · simp only [hxe, Bool.false_eq_true, ↓reduceIte] at hyid hyun
+                exact hsame x' hx' hyid hyun
+          · simp only [hobj, Bool.false_eq_true, ↓reduceIte] at hy
+            have hy' : y ∈ s.eps := by rw [← horph]; exact hy
+            exact hsame y hy' hyid hyun
+
 end GcpVerif.ME
